@@ -1,5 +1,9 @@
 """(re)write the C04 entries of known_findings.json: each witness is checked on /repo and against
-the oracle (driver) before it is written.  Run by hand; never at check time."""
+the oracle (driver) before it is written.  Run by hand; never at check time.
+
+Entries repaired in the library (status "fixed": exprmissing, exprtruth, strcasecmp, numtype,
+nullarg, adddate, concatstr, condkeys, undefvar, filtertruth, mapmissing, missingcmp) are kept as
+they are; their rows in W are only documentation."""
 import datetime as dt
 import json
 import os
@@ -63,9 +67,10 @@ W = [
      '$concat applies str() to non-string operands instead of rejecting them'),
     ('condkeys', 'project', {'$cond': {'if': True, 'then': 1}}, {'_id': 0},
      'a $cond document without if/then/else raises KeyError, which is read as "missing"'),
-    ('laxargs', 'project', {'$ifNull': ['$a']}, {'_id': 0, 'a': 1},
-     'arguments the rules reject are accepted: $ifNull with a single operand, $let/$cond with '
-     'extra fields, variable names that do not start with a lower-case letter'),
+    ('laxargs', 'project', {'$let': {'vars': {'V': 1}, 'in': '$$V'}}, {'_id': 0},
+     'variable names that do not start with a lower-case letter are accepted ($let vars, `as` of '
+     '$map / $filter); the other parts of this class ($ifNull with a single operand, $let / $cond '
+     'with extra fields) were repaired in the library by 0c401a3'),
     ('andstrict', 'project', {'$and': ['$f', {'$divide': [1, 0]}]}, {'_id': 0, 'f': False},
      '$and parses every operand (a list is built before all()): an operand that raises after '
      'the first false one makes the whole $and raise instead of being skipped'),
@@ -75,8 +80,13 @@ W = [
 def main():
     path = os.path.join(common.VERIF, 'known_findings.json')
     data = json.load(open(path))
-    data['findings'] = [e for e in data['findings'] if e.get('property') != 'C04']
+    fixed = {e['id'] for e in data['findings']
+             if e.get('property') == 'C04' and e.get('status') == 'fixed'}
+    data['findings'] = [e for e in data['findings']
+                        if e.get('property') != 'C04' or e['id'] in fixed]
     for fid, context, expr, doc, what in W:
+        if fid in fixed:
+            continue
         oids = wire.Oids()
         case = {'expr': expr, 'docs': [doc], 'oids': oids}
         res, stored = c04.py_eval(case)
